@@ -112,40 +112,61 @@ func (x *c01) flush() {
 	x.last = x.totalAlloc()
 }
 
+// byteSink receives the enumerated byte strings. all: every entry point;
+// near: the datagram decoder and the seed's own decoder; addressed: the
+// entries a header with this packet type addresses plus the type-less ones.
+type byteSink interface {
+	all(b []byte)
+	near(typ string, b []byte)
+	addressed(pt int, b []byte)
+}
+
+func (x *c01) all(b []byte) {
+	for i := range Entries {
+		x.call(&Entries[i], b)
+	}
+}
+
+func (x *c01) near(typ string, b []byte) {
+	x.call(&Entries[0], b)
+	if e := EntryByName("own:" + typ); e != nil {
+		x.call(e, b)
+	}
+}
+
+func (x *c01) addressed(pt int, b []byte) {
+	for i := range Entries {
+		if e := &Entries[i]; e.PT == pt || e.PT == -1 {
+			x.call(e, b)
+		}
+	}
+}
+
 func runC01(c *bx.Ctx) {
 	x := &c01{c: c}
 	x.last = x.totalAlloc()
 	if !c.Instr {
 		c.Note("statement-instrumented build unavailable: the step-budget clause is replaced by the driver's process watchdog")
 	}
-	all := make([]*Entry, len(Entries))
-	for i := range Entries {
-		all[i] = &Entries[i]
-	}
 	only := os.Getenv("VERIF_SPACES") // debugging aid: restrict to some spaces
-	run := func(name string, f func(*c01, []*Entry)) {
+	run := func(name string, f func(*bx.Ctx, byteSink)) {
 		if only == "" || strings.Contains(only, name) {
 			t0 := time.Now()
-			f(x, all)
+			f(c, x)
 			x.flush()
 			c.Count("cpu-ms:"+name, time.Since(t0).Milliseconds())
 		}
 	}
-	run("S1", c01S1)
-	run("S2", c01S2)
-	run("S3", c01S3)
-	run("S4", c01S4)
+	run("S1", genS1)
+	run("S2", genS2)
+	run("S3", genS3)
+	run("S4", genS4)
 }
 
 // S1: all short byte strings.
-func c01S1(x *c01, all []*Entry) {
-	c := x.c
+func genS1(c *bx.Ctx, x byteSink) {
 	c.Space("S1-short-strings")
-	run := func(b []byte) {
-		for _, e := range all {
-			x.call(e, b)
-		}
-	}
+	run := x.all
 	if c.Mine() {
 		run(nil)
 	}
@@ -186,8 +207,7 @@ var wrapLens = func() []int {
 }()
 
 // S2: header x length lattice.
-func c01S2(x *c01, all []*Entry) {
-	c := x.c
+func genS2(c *bx.Ctx, x byteSink) {
 	c.Space("S2-header-length-lattice")
 	counts := []int{0, 1, 2, 4, 5, 11, 15, 30, 31}
 	if c.Thorough() {
@@ -272,16 +292,10 @@ func c01S2(x *c01, all []*Entry) {
 								c.Add(1)
 								if n > 4096 {
 									// large buffers only to the entries this header addresses, dgram and the containers
-									for _, e := range all {
-										if e.PT == pt || e.PT == -1 {
-											x.call(e, buf[:n])
-										}
-									}
+									x.addressed(pt, buf[:n])
 									continue
 								}
-								for _, e := range all {
-									x.call(e, buf[:n])
-								}
+								x.all(buf[:n])
 							}
 						}
 					}
@@ -294,28 +308,14 @@ func c01S2(x *c01, all []*Entry) {
 var boundaryBytes = []byte{0x00, 0x01, 0x02, 0x7f, 0x80, 0x81, 0xfe, 0xff}
 
 // S3: deviation neighbourhood of valid encodings.
-func c01S3(x *c01, all []*Entry) {
-	c := x.c
+func genS3(c *bx.Ctx, x byteSink) {
 	c.Space("S3-seed-neighbourhood")
 	seeds := byteSeeds(c.Thorough())
 	c.Note(fmt.Sprintf("S3 seeds: %d", len(seeds)))
-	dgram := EntryByName("dgram")
 	for _, s := range seeds {
-		own := EntryByName("own:" + s.typ)
-		near := []*Entry{dgram}
-		if own != nil {
-			near = append(near, own)
-		}
-		sendNear := func(b []byte) {
-			for _, e := range near {
-				x.call(e, b)
-			}
-		}
-		sendAll := func(b []byte) {
-			for _, e := range all {
-				x.call(e, b)
-			}
-		}
+		typ := s.typ
+		sendNear := func(b []byte) { x.near(typ, b) }
+		sendAll := x.all
 		n := len(s.b)
 		ctl := map[int]bool{}
 		for _, o := range s.ctl {
@@ -442,8 +442,7 @@ func c01S3(x *c01, all []*Entry) {
 }
 
 // S4: amplification templates.
-func c01S4(x *c01, all []*Entry) {
-	c := x.c
+func genS4(c *bx.Ctx, x byteSink) {
 	c.Space("S4-amplification-templates")
 	for _, t := range amplificationTemplates() {
 		if !c.Mine() {
@@ -452,9 +451,7 @@ func c01S4(x *c01, all []*Entry) {
 		if c.Expired() {
 			return
 		}
-		for _, e := range all {
-			x.call(e, t.b)
-		}
+		x.all(t.b)
 		c.Sample(func() interface{} { return map[string]interface{}{"template": t.name, "octets": len(t.b)} })
 	}
 }
